@@ -3,205 +3,85 @@ package main
 import (
 	"go/token"
 	"go/types"
+	"sort"
 	"strings"
 
 	"golang.org/x/tools/go/ssa"
 )
 
 // C20 — context.Pool.
+//
+// Anchors are the exported API (context.Pool, NewPool, Pool.Add, Pool.Cancel,
+// Pool.Size) and the standard library. Everything else is resolved by role:
+// the fields of Pool through their types (the mutex, the slice of channels,
+// the channel, the embedded Context), the watcher as the goroutine started
+// (directly or through package callees) by NewPool, the pool context's cancel
+// function as result #1 of the context.WithCancel call whose result #0 is
+// stored in Pool.Context. The path rules run on an "inlined view": package
+// callees, deferred calls and function literals are followed (c20flow.go).
 
 func init() { register("C20", checkC20) }
 
+type c20 struct {
+	c  *Ctx
+	r  *Report
+	p  *Prog
+	ro *c20Roles
+	k  *c20Pkg
+	e  *LockEngine
+
+	newPool, add, cancel *ssa.Function
+	root                 *ssa.Function // watcher goroutine entry
+	goInstr              *ssa.Go
+	wname                string
+	W                    map[*ssa.Function]bool // watcher and the package functions it runs
+}
+
 func checkC20(c *Ctx) {
 	r, p := c.R, c.P
-	r.Explanation = "Decides structural necessary conditions of C20 on context/pool.go: (Y1) Pool.pool is only touched under Pool.lock (the watcher goroutine starts with the read lock handed over by NewPool, verified at the go statement); (Y2) the watcher's loop test re-reads len(p.pool) under the lock in every iteration, walks indices 0,1,2,… and leaves the loop only when the index reaches that length — so a member added while the pool is live is waited for; (Y3) every wait in the watcher is a select with a case for the member's Done channel and a case on Pool.closed, and the cancel function of the pool's own context is deferred at the top of the watcher so the pool context ends on every exit and only then; (Y4) Add appends only under the write lock and only on the default branch of a select over the pool's Done() and Pool.closed; (Y5) every close(Pool.closed) is guarded by pool != nil and clears pool in the same critical section (closed at most once). NOT decided: the history-level claim 'never early / always eventually' over all cancellation orders and Add timings."
-	r.Assumptions = append(r.Assumptions, "sync.RWMutex may be unlocked by a goroutine other than the locker (documented), which is what the NewPool hand-off relies on")
-	r.Rule("C20.Y1-guard", "Pool.pool accessed only under Pool.lock (W for writes); watcher entry lockset = hand-off from NewPool", 4)
-	r.Rule("C20.Y1-handoff", "NewPool holds Pool.lock(R) at the go statement and does not release it", 1)
-	r.Rule("C20.Y2-reread", "watcher loop: index from 0 step 1, exit only when index >= len(p.pool) re-read inside the loop", 1)
-	r.Rule("C20.Y3-waits", "every wait in the watcher selects on the member channel pool[i] and on Pool.closed; cancel of the pool context is deferred on every exit", 2)
-	r.Rule("C20.Y4-add", "Add appends only on the default branch of select{<-p.Done(), <-p.closed}, under the write lock, and always does so on that branch", 2)
-	r.Rule("C20.Y6-initial", "NewPool considers every initial context: the loop over ctx is left only by its index test, and an iteration that does not append has seen that context done", 1)
-	r.Rule("C20.Y7-cancel-clears", "every return of Cancel has cleared Pool.pool or seen it nil (Size is zero after Cancel)", 1)
-	r.Rule("C20.Y5-cancel", "close(Pool.closed) only under pool != nil, with pool cleared in the same block", 1)
+	r.Explanation = "Decides necessary conditions of C20 on context.Pool, with every construct resolved by role (fields through their types, the watcher as the goroutine NewPool starts, the pool's cancel function through dataflow from context.WithCancel) and every path rule evaluated on an inlined view of the exported methods (package callees, deferred calls and function literals are followed; evidence is attached to CFG edges, so if/switch/select forms, early returns, helpers returning a boolean, defer vs explicit calls are equivalent): " +
+		"(Y1) the members slice is only touched under the Pool mutex (write mode for writes); the watcher's entry lockset is whatever NewPool holds at the go statement and still holds when it returns; " +
+		"(Y2) the watcher invokes the pool context's cancel only on paths that, since its last blocking wait, re-read len(members) and observed index >= len for an index that starts at 0 and advances by 1 — so a member added while the pool is live is waited for; " +
+		"(Y3) every blocking operation the watcher performs is a select with a case on an element of the members slice and a case on the Cancel channel, and every exit of the watcher has invoked cancel; " +
+		"(Y4) every store to the members slice reachable from Add happens with the write lock held and after a non-blocking test, made in the same lock hold, that found neither the pool context done nor the Cancel channel closed; every return of Add has either seen the pool ended or appended the offered context to the existing members; " +
+		"(Y5) every close of the Cancel channel reachable from Cancel happens under the write lock after observing members != nil in the same hold (or inside sync.Once.Do) and members is set to nil before that hold ends; " +
+		"(Y6) NewPool's loop over the initial contexts is left only by its index test (index 0..len-1 step 1) and an iteration that does not append the context's Done channel to a slice flowing into the members field has observed that context done; " +
+		"(Y7) every return of Cancel has stored nil to members or seen it nil. " +
+		"NOT decided: the history-level claim 'never early / always eventually' over all cancellation orders and Add timings; that Size returns exactly len(members); that the channel waited for is the one at the current index."
+	r.Assumptions = append(r.Assumptions,
+		"sync.RWMutex may be unlocked by a goroutine other than the locker (documented), which is what the NewPool hand-off relies on",
+		"context.Context implementations are well behaved: Done() of one context always returns the same channel, Err() != nil iff Done() is closed")
+	r.Rule("C20.Y1-guard", "the members slice of Pool is accessed only under the Pool mutex (W for writes); watcher entry lockset = what NewPool hands over", 3)
+	r.Rule("C20.Y2-reread", "the watcher cancels the pool context only after re-reading len(members) since its last wait and observing index >= len (index from 0 step 1)", 1)
+	r.Rule("C20.Y3-waits", "every wait in the watcher selects on a member channel and on the Cancel channel; every exit of the watcher has invoked the pool context's cancel", 2)
+	r.Rule("C20.Y4-add", "Add stores to members only under the write lock after finding, in the same hold, the pool neither done nor cancelled; every return saw the pool ended or appended the offered context", 2)
+	r.Rule("C20.Y6-initial", "NewPool considers every initial context: the loop is left only by its index test, and an iteration that does not append has seen that context done", 1)
+	r.Rule("C20.Y7-cancel-clears", "every return of Cancel has cleared members or seen it nil (Size is zero after Cancel)", 1)
+	r.Rule("C20.Y5-cancel", "the Cancel channel is closed only under the write lock, at most once (members != nil seen and members cleared in the same hold, or sync.Once)", 1)
 
-	ctxPkg := p.ModPath + "/context"
-	lockID := ctxPkg + ".Pool.lock"
-	poolField := FieldID{ctxPkg + ".Pool", "pool"}
-	closedCh := "field:" + ctxPkg + ".Pool.closed"
+	ro, why := resolveC20Roles(p)
+	if why != "" {
+		undecided("C20 roles: %s", why)
+	}
+	a := &c20{c: c, r: r, p: p, ro: ro, k: newC20Pkg(p.FuncsOfPkg("context"))}
+	a.newPool = p.Func("context", "NewPool")
+	a.add = p.Func("context", "Pool.Add")
+	a.cancel = p.Func("context", "Pool.Cancel")
+	p.Func("context", "Pool.Size")
+	if ro.Closed.Field == "" {
+		a.resolveClosed()
+	}
+	r.Stats["roles"] = "lock=" + ro.Lock.String() + " members=" + ro.Members.String() + " cancel-channel=" + ro.Closed.String() + " context=" + ro.Ctx.String()
 
-	newPool := p.Func("context", "NewPool")
-	var watcher *ssa.Function
-	var goInstr *ssa.Go
-	allInstrs(newPool, func(in ssa.Instruction) {
-		if g, ok := in.(*ssa.Go); ok {
-			if f := staticCallee(g); f != nil && f.Parent() == newPool {
-				watcher, goInstr = f, g
-			}
-		}
-	})
-	if watcher == nil {
-		r.Violation("C20.Y3-waits", "context.NewPool watcher", p.Pos(newPool.Pos()), "NewPool no longer starts a watcher goroutine (closure started with go)")
+	if !a.findWatcher() {
 		return
 	}
-	wname := FuncName(p, watcher)
-
-	e := newKitLockEngine(p)
-	e.Handoff[wname] = LS{lockID: ModeR}
-	e.Run()
-
-	// Y1 hand-off
-	held := e.At(goInstr)[lockID]
-	acq, _ := e.Summary(newPool)
-	r.Check(held >= ModeR && acq[lockID] >= ModeR, "C20.Y1-handoff", "context.NewPool -> go "+wname, p.Pos(goInstr.Pos()),
-		"spawner holds Pool.lock at the go statement and returns with it held (released by the watcher)",
-		"the watcher is analysed as starting with Pool.lock(R) but NewPool does not hold it at the go statement / releases it itself")
-
-	CheckGuardedBy(p, e, r, "C20.Y1-guard", []GuardSpec{{Field: poolField, Lock: lockID}})
-
-	// Y2: loop shape
-	checkC20Loop(c, watcher, wname, poolField)
-
-	// Y3: waits
-	nWait := 0
-	for _, op := range blockingOps(e, watcher) {
-		switch op.Kind {
-		case "lock":
-			continue
-		case "select":
-			nWait++
-			hasClosed, hasMember := false, false
-			for _, cs := range op.Sel.Cases {
-				if cs.Dir == types.RecvOnly && cs.Chan == closedCh {
-					hasClosed = true
-				}
-				if cs.Dir == types.RecvOnly && cs.Chan == "field:"+poolField.Type+"."+poolField.Field+"[]" {
-					hasMember = true
-				}
-			}
-			r.Check(hasClosed && hasMember, "C20.Y3-waits", wname+" select", p.Pos(instrPos(op.Instr)),
-				"wait selects on pool[i] and Pool.closed", "a wait in the watcher lacks the member channel case or the Pool.closed case (early end, or watcher outlives Cancel)")
-		default:
-			nWait++
-			r.Violation("C20.Y3-waits", wname+" "+op.Desc, p.Pos(instrPos(op.Instr)), "watcher blocks outside a select with the Pool.closed case: "+op.Desc)
-		}
-	}
-	if nWait == 0 {
-		r.Violation("C20.Y3-waits", wname+" select", p.Pos(watcher.Pos()), "the watcher no longer waits for any member (pool context would end at once)")
-	}
-	checkC20Cancel(c, newPool, watcher, wname)
-
-	// Y4: Add
-	add := p.Func("context", "Pool.Add")
-	nStores := 0
-	for _, a := range FieldAccesses(add, func(id FieldID) bool { return id == poolField }) {
-		if a.Kind != AccWrite {
-			continue
-		}
-		nStores++
-		ok := false
-		allInstrs(add, func(in ssa.Instruction) {
-			sel, isSel := in.(*ssa.Select)
-			if !isSel || sel.Blocking {
-				return
-			}
-			si := decodeSelect(sel)
-			hasDone, hasClosed := false, false
-			for _, cs := range si.Cases {
-				if cs.Dir == types.RecvOnly && cs.Chan == closedCh {
-					hasClosed = true
-				}
-				if cs.Dir == types.RecvOnly && cs.Chan == "done:context.Pool.Context" {
-					hasDone = true
-				}
-			}
-			if hasDone && hasClosed && si.Default != nil && si.Default.Dominates(a.Instr.Block()) && e.At(sel)[lockID] == ModeW {
-				ok = true
-			}
-		})
-		r.Check(ok, "C20.Y4-add", "context.Pool.Add store to pool", p.Pos(instrPos(a.Instr)),
-			"append happens only when neither p.Done() nor p.closed is ready, observed under the write lock", "the liveness test (select on p.Done()/p.closed) is not made under the same write-lock section as the append (a Cancel can slip in between), or Add can append a member although the pool context is done or the pool was cancelled (or the select no longer checks both)")
-	}
-	if nStores == 0 {
-		r.Violation("C20.Y4-add", "context.Pool.Add store to pool", p.Pos(add.Pos()), "Add no longer appends the offered context to the pool")
-	}
-	// every return of Add was reached through one of the 'pool ended' cases or after the append:
-	// a context offered to a live pool must become a member whatever it is
-	{
-		const (
-			viaCase = 1
-			app     = 2
-		)
-		ffa := &FlagFlow{Fn: add, Must: false, Entry: 1 << 0,
-			Transfer: func(in ssa.Instruction, st uint64) uint64 {
-				if s, ok := in.(*ssa.Store); ok {
-					if fa, ok := s.Addr.(*ssa.FieldAddr); ok && fieldIDOfAddr(fa) == poolField {
-						if call, ok := s.Val.(*ssa.Call); ok && builtinName(call) == "append" {
-							return mapStates(st, func(x int) int { return x | app })
-						}
-					}
-				}
-				return st
-			},
-			EdgeTransfer: func(from, to *ssa.BasicBlock, st uint64) uint64 {
-				if si, ks := selectEdgeCases(from, to); si != nil {
-					for _, k := range ks {
-						if k < len(si.Cases) && si.Cases[k].Dir == types.RecvOnly && (si.Cases[k].Chan == closedCh || si.Cases[k].Chan == "done:context.Pool.Context") {
-							return mapStates(st, func(x int) int { return x | viaCase })
-						}
-					}
-				}
-				return st
-			}}
-		ffa.Run()
-		okAll := true
-		where := ""
-		ffa.AtReturns(func(ret *ssa.Return, st uint64) {
-			if st&(1<<0) != 0 {
-				okAll = false
-				where = p.Pos(ret.Pos())
-			}
-		})
-		r.Check(okAll, "C20.Y4-add", "context.Pool.Add every live offer is tracked", p.Pos(add.Pos()), "every return of Add either saw the pool ended or appended the context",
-			"Add can return (at "+where+") without having appended the offered context although neither p.Done() nor p.closed had fired: a member added to a live pool is silently not tracked (e.g. contexts whose Done() is nil), so the pool can end while that member is still live")
-	}
-
-	// Y5: close(closed)
-	nClose := 0
-	for _, fn := range p.FuncsOfPkg("context") {
-		for _, cl := range closeSites(fn) {
-			if cl.Chan != closedCh {
-				continue
-			}
-			nClose++
-			blk := cl.Instr.Block()
-			guarded := false
-			for _, dc := range domConds(blk) {
-				if cmp, ok := decodeCond(dc.If.Cond, dc.Branch); ok && cmp.Op == token.NEQ {
-					if id, _, ok := fieldOfValue(cmp.X); ok && id == poolField && isNilConst(cmp.Y) {
-						guarded = true
-					}
-				}
-			}
-			cleared := false
-			for _, in := range blk.Instrs {
-				if st, ok := in.(*ssa.Store); ok {
-					if fa, ok := st.Addr.(*ssa.FieldAddr); ok && fieldIDOfAddr(fa) == poolField && isNilConst(st.Val) {
-						cleared = true
-					}
-				}
-			}
-			w := e.At(cl.Instr)[lockID] == ModeW
-			r.Check(guarded && cleared && w, "C20.Y5-cancel", FuncName(p, fn)+" close(Pool.closed)", p.Pos(instrPos(cl.Instr)),
-				"close is guarded by pool != nil, clears pool and runs under the write lock", "Pool.closed can be closed twice (panic) or without dropping the members: guard pool!=nil / pool=nil / write lock missing")
-		}
-	}
-	if nClose == 0 {
-		r.Violation("C20.Y5-cancel", "context.Pool.Cancel close(Pool.closed)", p.Pos(p.Func("context", "Pool.Cancel").Pos()), "Cancel no longer closes Pool.closed: the watcher is not released")
-	}
-
-	checkC20Initial(c, newPool, poolField)
-	checkC20CancelClears(c, poolField)
+	a.checkGuard()
+	a.checkWaits()
+	a.checkWatcherFlow()
+	a.checkAdd()
+	a.checkCancel()
+	a.checkInitial()
 
 	c.Fixture("locks", func(fp *Prog, fr *Report) {
 		fe := NewLockEngine(fp)
@@ -211,27 +91,616 @@ func checkC20(c *Ctx) {
 	})
 }
 
-// checkC20Loop: the loop index is a phi {0, phi+1}; the If relating it to
-// len(load Pool.pool) has the len computed in a block inside the loop; all
-// returns are dominated by the exit edge (index >= len).
-func checkC20Loop(c *Ctx, watcher *ssa.Function, wname string, poolField FieldID) {
-	r, p := c.R, c.P
-	construct := wname + " loop"
-	var found *ssa.If
-	var why string
-	allInstrs(watcher, func(in ssa.Instruction) {
-		ifi, ok := in.(*ssa.If)
-		if !ok {
-			return
+// ---------------------------------------------------------------- roles
+
+// resolveClosed: several channel fields — the Cancel channel is the one closed
+// by code reachable from Cancel.
+func (a *c20) resolveClosed() {
+	found := map[string]bool{}
+	for fn := range a.k.reach(a.cancel) {
+		for _, cl := range closeSites(fn) {
+			args := cl.Instr.(ssa.CallInstruction).Common().Args
+			src, _ := a.k.origins(args[0])
+			for _, s := range src {
+				if id, _, ok := fieldOfValue(s); ok && id.Type == a.ro.PoolType {
+					found[id.Field] = true
+				}
+			}
 		}
-		cmp, ok := decodeCond(ifi.Cond, true)
-		if !ok {
-			return
+	}
+	if len(found) != 1 {
+		undecided("C20 roles: context.Pool has several channel fields and Cancel does not close exactly one of them")
+	}
+	for f := range found {
+		a.ro.Closed = FieldID{a.ro.PoolType, f}
+	}
+}
+
+func (a *c20) isMembersLoad(v ssa.Value) bool { return c20IsFieldLoad(v, a.ro.Members) }
+
+// resolved origins of a value seen in an inlining context
+func (a *c20) orig(x *c20Ctx, v ssa.Value, pred func(ssa.Value) bool) c20Tri {
+	if x != nil {
+		v, _ = x.Resolve(v)
+	}
+	return a.k.allOrigins(v, pred)
+}
+
+func (a *c20) isLenOfMembers(o ssa.Value) bool {
+	c, ok := o.(*ssa.Call)
+	if !ok || builtinName(c) != "len" || len(c.Call.Args) != 1 {
+		return false
+	}
+	return a.k.allOrigins(c.Call.Args[0], a.isMembersLoad) == c20Yes
+}
+
+// isMemberElem: o is a load of an element of the members slice.
+func (a *c20) isMemberElem(o ssa.Value) bool {
+	u, ok := o.(*ssa.UnOp)
+	if !ok || u.Op != token.MUL {
+		return false
+	}
+	ia, ok := u.X.(*ssa.IndexAddr)
+	if !ok {
+		return false
+	}
+	return a.k.allOrigins(ia.X, a.isMembersLoad) == c20Yes
+}
+
+func (a *c20) isClosedLoad(o ssa.Value) bool { return c20IsFieldLoad(o, a.ro.Closed) }
+
+// isPoolValue: v is a *Pool (or the Context stored in Pool.Context).
+func (a *c20) isPoolCtx(v ssa.Value) bool {
+	return a.k.allOrigins(v, func(o ssa.Value) bool {
+		if c20IsFieldLoad(o, a.ro.Ctx) {
+			return true
 		}
-		// normalise to idx < len
+		return namedKey(o.Type()) == a.ro.PoolType
+	}) == c20Yes
+}
+
+// c20CtxMethodCall: o is recv.<name>() of a context.Context-like receiver; returns the receiver.
+func c20CtxMethodCall(o ssa.Value, name string) (ssa.Value, bool) {
+	c, ok := o.(*ssa.Call)
+	if !ok {
+		return nil, false
+	}
+	obj := calleeObj(c)
+	if obj == nil || obj.Name() != name {
+		return nil, false
+	}
+	if c.Call.IsInvoke() {
+		return c.Call.Value, true
+	}
+	if len(c.Call.Args) > 0 && obj.Type().(*types.Signature).Recv() != nil {
+		return c.Call.Args[0], true
+	}
+	return nil, false
+}
+
+// isPoolDone: o is the Done() channel of the pool's own context.
+func (a *c20) isPoolDone(o ssa.Value) bool {
+	recv, ok := c20CtxMethodCall(o, "Done")
+	return ok && a.isPoolCtx(recv)
+}
+
+// c20ErrTest decodes `X.Err() <op> nil` / `context.Cause(X) <op> nil`; returns X.
+func c20ErrTest(cmp Cmp) (recv ssa.Value, op token.Token, ok bool) {
+	x, y := cmp.X, cmp.Y
+	if isNilConst(x) {
+		x, y = y, x
+	}
+	if !isNilConst(y) || (cmp.Op != token.EQL && cmp.Op != token.NEQ) {
+		return nil, 0, false
+	}
+	if rv, ok := c20CtxMethodCall(x, "Err"); ok {
+		return rv, cmp.Op, true
+	}
+	if c, ok := x.(*ssa.Call); ok && callIs(c, "context", "", "Cause") && len(c.Call.Args) == 1 {
+		return c.Call.Args[0], cmp.Op, true
+	}
+	return nil, 0, false
+}
+
+// opaqueChan: the channel comes out of a container or an unresolved parameter,
+// so it cannot be said what it is NOT.
+func (a *c20) opaqueChan(x *c20Ctx, v ssa.Value) bool {
+	if x != nil {
+		v, _ = x.Resolve(v)
+	}
+	src, open := a.k.origins(v)
+	if open {
+		return true
+	}
+	for _, o := range src {
+		switch q := o.(type) {
+		case *ssa.UnOp:
+			switch q.X.(type) {
+			case *ssa.IndexAddr, *ssa.FreeVar:
+				return true
+			}
+		case *ssa.Lookup, *ssa.Index, *ssa.FreeVar:
+			return true
+		case *ssa.Parameter:
+			if !isExportedFunc(q.Parent()) {
+				return true
+			}
+		}
+	}
+	return false
+}
+
+// mentionsLen: v is an arithmetic expression over len(members).
+func (a *c20) mentionsLen(x *c20Ctx, v ssa.Value, depth int) bool {
+	if depth > 4 {
+		return false
+	}
+	if bo, ok := v.(*ssa.BinOp); ok {
+		return a.mentionsLen(x, bo.X, depth+1) || a.mentionsLen(x, bo.Y, depth+1)
+	}
+	if _, ok := v.(*ssa.Const); ok {
+		return false
+	}
+	return a.orig(x, v, a.isLenOfMembers) == c20Yes
+}
+
+func (a *c20) lockKind(in ssa.Instruction) (lockOpKind, bool) {
+	ci, ok := in.(ssa.CallInstruction)
+	if !ok {
+		return 0, false
+	}
+	id, kind, ok := a.e.lockOp(ci)
+	if !ok || id != a.ro.LockID {
+		return 0, false
+	}
+	return kind, true
+}
+
+func c20SortedKeys(m map[string]bool) string {
+	var ks []string
+	for k := range m {
+		ks = append(ks, k)
+	}
+	sort.Strings(ks)
+	return strings.Join(ks, "; ")
+}
+
+// decide records OK, or — if the rule does not hold — a VIOLATION when the
+// analysis was exact and UNDECIDED when it had to over-approximate.
+func (a *c20) decide(ok bool, f *c20PathFlow, rule, construct string, pos token.Pos, okMsg, badMsg string) {
+	if ok {
+		a.r.OK(rule, construct, a.p.Pos(pos), okMsg)
+		return
+	}
+	if f != nil && len(f.Imprecise) > 0 {
+		a.r.Undecide("%s %s: %s — not decided because the path analysis was not exact here (%s)", rule, construct, badMsg, c20SortedKeys(f.Imprecise))
+		return
+	}
+	a.r.Violation(rule, construct, a.p.Pos(pos), badMsg)
+}
+
+// ---------------------------------------------------------------- watcher
+
+func (a *c20) findWatcher() bool {
+	r, p := a.r, a.p
+	type cand struct {
+		g  *ssa.Go
+		fn *ssa.Function
+	}
+	var cands []cand
+	dynamicGo := false
+	for fn := range a.k.reach(a.newPool) {
+		allInstrs(fn, func(in ssa.Instruction) {
+			if g, ok := in.(*ssa.Go); ok {
+				if f := staticCallee(g); f != nil && a.k.In[f] {
+					cands = append(cands, cand{g, f})
+				} else {
+					dynamicGo = true
+				}
+			}
+		})
+	}
+	// keep the goroutines that work on the pool (touch its members or its Cancel channel)
+	var keep []cand
+	for _, cd := range cands {
+		touches := false
+		for fn := range a.k.reach(cd.fn) {
+			if len(FieldAccesses(fn, func(id FieldID) bool { return id == a.ro.Members || id == a.ro.Closed })) > 0 {
+				touches = true
+			}
+		}
+		if touches {
+			keep = append(keep, cd)
+		}
+	}
+	sort.Slice(keep, func(i, j int) bool { return keep[i].g.Pos() < keep[j].g.Pos() })
+	switch {
+	case len(keep) == 1:
+		a.goInstr, a.root = keep[0].g, keep[0].fn
+	case len(keep) > 1:
+		r.Undecide("C20: NewPool starts %d goroutines working on the pool; which one is the watcher is not decided", len(keep))
+		return false
+	default:
+		// is there any goroutine / AfterFunc in the package that could play the role?
+		other := dynamicGo
+		for _, fn := range a.k.Funcs {
+			allInstrs(fn, func(in ssa.Instruction) {
+				switch x := in.(type) {
+				case *ssa.Go:
+					other = true
+				case *ssa.Call:
+					if callIs(x, "context", "", "AfterFunc") {
+						other = true
+					}
+				}
+			})
+		}
+		if other {
+			r.Undecide("C20: no goroutine working on the pool is started by NewPool or its package callees, but the package starts goroutines elsewhere; the watcher could not be identified")
+			return false
+		}
+		r.Violation("C20.Y3-waits", "context.NewPool watcher", p.Pos(a.newPool.Pos()), "neither NewPool nor any function of the package starts a goroutine: nothing waits for the members, the pool context never ends when they end")
+		return false
+	}
+	a.wname = FuncName(p, a.root)
+	a.W = a.k.reach(a.root)
+	return true
+}
+
+// lock bits shared by the path rules
+const (
+	c20LR c20State = 1 << 10 // read lock held
+	c20LW c20State = 1 << 11 // write lock held
+)
+
+// lockStep applies a lock operation on the Pool mutex to the lock bits.
+func (a *c20) lockStep(in ssa.Instruction, s c20State) (c20State, bool) {
+	kind, ok := a.lockKind(in)
+	if !ok {
+		return s, false
+	}
+	switch kind {
+	case opLock:
+		s |= c20LW
+	case opUnlock:
+		s &^= c20LW
+	case opRLock:
+		s |= c20LR
+	case opRUnlock:
+		s &^= c20LR
+	}
+	return s, true
+}
+
+// checkGuard: Y1. Every access to the members slice, on every path of the
+// inlined view of each entry point (the exported functions, entered without
+// the lock, and the watcher, entered with what NewPool hands over), happens
+// with the Pool mutex held (write mode for writes). The hand-off is what
+// NewPool holds at the go statement on every path and still holds at each of
+// its returns.
+func (a *c20) checkGuard() {
+	r, p := a.r, a.p
+	a.e = newKitLockEngine(p) // only used to recognise lock operations; no whole-program run needed
+	// hand-off
+	heldAtGo, heldAtRet := c20LR|c20LW, c20LR|c20LW
+	sawGo := false
+	hf := &c20PathFlow{K: a.k}
+	hf.Instr = func(x *c20Ctx, in ssa.Instruction, s c20State) c20State {
+		if _, isDefer := in.(*ssa.Defer); isDefer && !x.Replaying {
+			return s
+		}
+		if ns, ok := a.lockStep(in, s); ok {
+			return ns
+		}
+		if in == ssa.Instruction(a.goInstr) {
+			sawGo = true
+			heldAtGo &= s
+		}
+		return s
+	}
+	hres := hf.Run(a.newPool, c20Set{0: {}})
+	for s := range hres.all {
+		heldAtRet &= s
+	}
+	var handoff c20State
+	if sawGo && hres.returns > 0 {
+		handoff = heldAtGo & heldAtRet & (c20LR | c20LW)
+	}
+	switch {
+	case handoff&c20LW != 0:
+		r.Stats["watcher_entry_lockset"] = "write lock handed over by NewPool"
+	case handoff&c20LR != 0:
+		r.Stats["watcher_entry_lockset"] = "read lock handed over by NewPool"
+	default:
+		r.Stats["watcher_entry_lockset"] = "{}"
+	}
+
+	// accesses
+	need := map[ssa.Instruction]Mode{}
+	what := map[ssa.Instruction]string{}
+	for _, fn := range a.k.Funcs {
+		for _, acc := range FieldAccesses(fn, func(id FieldID) bool { return id == a.ro.Members }) {
+			if acc.Fresh {
+				continue
+			}
+			m := ModeR
+			if acc.Kind == AccWrite {
+				m = ModeW
+			}
+			if m > need[acc.Instr] {
+				need[acc.Instr] = m
+				what[acc.Instr] = acc.Kind.String() + " (" + acc.What + ")"
+			}
+		}
+	}
+	visited := map[ssa.Instruction]bool{}
+	type root struct {
+		fn    *ssa.Function
+		entry c20State
+	}
+	roots := []root{{a.root, handoff}}
+	for _, fn := range a.k.Funcs {
+		if isExportedFunc(fn) {
+			roots = append(roots, root{fn, 0})
+		}
+	}
+	for _, rt := range roots {
+		bad := map[ssa.Instruction]bool{}
+		n := 0
+		f := &c20PathFlow{K: a.k}
+		f.Instr = func(x *c20Ctx, in ssa.Instruction, s c20State) c20State {
+			if _, isDefer := in.(*ssa.Defer); isDefer && !x.Replaying {
+				return s
+			}
+			if ns, ok := a.lockStep(in, s); ok {
+				return ns
+			}
+			if m, ok := need[in]; ok {
+				if !visited[in] {
+					visited[in] = true
+				}
+				n++
+				if !(s&c20LW != 0 || (m == ModeR && s&c20LR != 0)) {
+					bad[in] = true
+				}
+			}
+			return s
+		}
+		f.Run(rt.fn, c20Set{rt.entry: {}})
+		if n == 0 {
+			continue
+		}
+		construct := FuncName(p, rt.fn) + " -> " + a.ro.Members.String()
+		var w []string
+		var pos token.Pos
+		var ins []ssa.Instruction
+		for in := range bad {
+			ins = append(ins, in)
+		}
+		sort.Slice(ins, func(i, j int) bool { return instrPos(ins[i]) < instrPos(ins[j]) })
+		for _, in := range ins {
+			w = append(w, what[in]+" in "+FuncName(p, in.Parent())+" at "+p.Pos(instrPos(in))+" needs "+shortID(a.ro.LockID)+"("+need[in].String()+")")
+			if !pos.IsValid() {
+				pos = instrPos(in)
+			}
+		}
+		if len(bad) == 0 {
+			r.OK("C20.Y1-guard", construct, p.Pos(rt.fn.Pos()), "every access to the members slice on every path of this entry point (callees inlined) holds the Pool mutex in the needed mode")
+		} else if len(f.Imprecise) > 0 {
+			r.Undecide("C20.Y1-guard %s: an access may be unprotected, but the path analysis was not exact (%s)", construct, c20SortedKeys(f.Imprecise))
+		} else {
+			r.Violation("C20.Y1-guard", construct, p.Pos(pos), "accesses to the members slice are not protected by the Pool mutex on some path of this entry point", w...)
+		}
+	}
+	var missed []string
+	for in := range need {
+		if !visited[in] {
+			missed = append(missed, FuncName(p, in.Parent())+" at "+p.Pos(instrPos(in)))
+		}
+	}
+	if len(missed) > 0 {
+		sort.Strings(missed)
+		r.Undecide("C20.Y1-guard: accesses to the members slice that no followed path of an entry point reaches (function values, dead code?): %s", strings.Join(missed, ", "))
+	}
+}
+
+// checkWaits: Y3, blocking operations of the watcher and everything it runs.
+func (a *c20) checkWaits() {
+	r, p := a.r, a.p
+	nWait := 0
+	var fns []*ssa.Function
+	for fn := range a.W {
+		fns = append(fns, fn)
+	}
+	sort.Slice(fns, func(i, j int) bool { return FuncName(p, fns[i]) < FuncName(p, fns[j]) })
+	dynamic := false
+	for _, fn := range fns {
+		allInstrs(fn, func(in ssa.Instruction) {
+			if c, ok := in.(*ssa.Call); ok && staticCallee(c) == nil && builtinName(c) == "" && !c.Call.IsInvoke() {
+				dynamic = true
+			}
+		})
+		for _, op := range blockingOps(a.e, fn) {
+			fname := FuncName(p, fn)
+			switch op.Kind {
+			case "lock":
+				continue
+			case "select":
+				nWait++
+				closed, member := c20No, c20No
+				for _, cs := range op.Sel.Cases {
+					if cs.Dir != types.RecvOnly {
+						continue
+					}
+					if t := a.k.allOrigins(cs.ChanV, a.isClosedLoad); t > closed || closed == c20No {
+						if t != c20No {
+							closed = t
+						}
+					}
+					if t := a.k.allOrigins(cs.ChanV, a.isMemberElem); t != c20No && member != c20Yes {
+						member = t
+					}
+				}
+				switch {
+				case closed == c20Yes && member == c20Yes:
+					r.OK("C20.Y3-waits", fname+" select", p.Pos(instrPos(op.Instr)), "wait selects on a member channel and on the Cancel channel")
+				case closed == c20No || member == c20No:
+					what := "the Cancel channel case (the watcher would outlive Cancel)"
+					if member == c20No {
+						what = "a case on a channel taken from the members slice (the pool would end early or never)"
+					}
+					r.Violation("C20.Y3-waits", fname+" select", p.Pos(instrPos(op.Instr)), "a wait in the watcher lacks "+what)
+				default:
+					r.Undecide("C20.Y3-waits %s select at %s: the provenance of a case channel could not be traced to the members slice / the Cancel channel", fname, p.Pos(instrPos(op.Instr)))
+				}
+			default:
+				nWait++
+				r.Violation("C20.Y3-waits", fname+" "+op.Kind, p.Pos(instrPos(op.Instr)), "the watcher blocks outside a select that has the Cancel channel case: "+op.Desc)
+			}
+		}
+	}
+	if nWait == 0 {
+		if dynamic {
+			r.Undecide("C20.Y3-waits: no blocking wait found in the watcher %s, but it calls function values that were not followed", a.wname)
+		} else {
+			r.Violation("C20.Y3-waits", a.wname+" select", p.Pos(a.root.Pos()), "the watcher no longer waits for any member (the pool context would end at once)")
+		}
+	}
+}
+
+// cancelCarriers: the values that may hold the cancel function of the pool's
+// own context, and the WithCancel call.
+func (a *c20) cancelCarriers() (*c20Flow, *ssa.Call) {
+	r, p := a.r, a.p
+	var wcs []*ssa.Call
+	for fn := range a.k.reach(a.newPool) {
+		allInstrs(fn, func(in ssa.Instruction) {
+			if call, ok := in.(*ssa.Call); ok && (callIs(call, "context", "", "WithCancel") || callIs(call, "context", "", "WithCancelCause")) {
+				// the one whose context result is stored in Pool.Context
+				if ctxRes := callResult(call, 0); ctxRes != nil && a.k.flowsTo(ctxRes).Fields[a.ro.Ctx] {
+					wcs = append(wcs, call)
+				}
+			}
+		})
+	}
+	if len(wcs) != 1 {
+		r.Undecide("C20.Y3-waits: the context stored in Pool.Context is not the result of exactly one context.WithCancel call in NewPool or its package callees (%d found); how the pool context ends is not decided", len(wcs))
+		return nil, nil
+	}
+	cancelRes := callResult(wcs[0], 1)
+	if cancelRes == nil {
+		r.Undecide("C20.Y3-waits: the cancel function returned by context.WithCancel is discarded at %s", p.Pos(wcs[0].Pos()))
+		return nil, nil
+	}
+	return a.k.flowsTo(cancelRes), wcs[0]
+}
+
+func c20ProgressionFromZero(phi *ssa.Phi) bool {
+	zero, step := false, false
+	for _, ed := range phi.Edges {
+		if k, ok := ed.(*ssa.Const); ok && k.Value != nil && k.Int64() == 0 {
+			zero = true
+			continue
+		}
+		if bo, ok := ed.(*ssa.BinOp); ok && bo.Op == token.ADD {
+			if k, ok := bo.Y.(*ssa.Const); ok && bo.X == ssa.Value(phi) && k.Value != nil && k.Int64() == 1 {
+				step = true
+				continue
+			}
+			if k, ok := bo.X.(*ssa.Const); ok && bo.Y == ssa.Value(phi) && k.Value != nil && k.Int64() == 1 {
+				step = true
+				continue
+			}
+		}
+		return false
+	}
+	return zero && step
+}
+
+// checkWatcherFlow: Y2 and the cancel half of Y3.
+func (a *c20) checkWatcherFlow() {
+	r, p := a.r, a.p
+	carriers, wc := a.cancelCarriers()
+	if carriers == nil {
+		return
+	}
+	const (
+		bExit  = 1 << iota // index >= len(members) observed on a fresh length since the last wait
+		bCanc              // cancel invoked
+		bFresh             // len(members) evaluated since the last wait
+	)
+	exitEdges, cancelExits := 0, 0
+	exitUnknown := map[string]bool{}
+	nearMiss := map[string]bool{}
+	events := map[ssa.Instruction]bool{} // -> some state lacked bExit
+	isCancelValue := func(v ssa.Value) bool { return carriers.Vals[v] }
+	f := &c20PathFlow{K: a.k}
+	f.Instr = func(x *c20Ctx, in ssa.Instruction, s c20State) c20State {
+		switch i := in.(type) {
+		case *ssa.Select:
+			if i.Blocking {
+				return s &^ (bExit | bFresh)
+			}
+		case *ssa.UnOp:
+			if i.Op == token.ARROW {
+				return s &^ (bExit | bFresh)
+			}
+		case *ssa.Send:
+			return s &^ (bExit | bFresh)
+		case ssa.CallInstruction:
+			if c, ok := in.(*ssa.Call); ok && a.isLenOfMembers(c) {
+				return s | bFresh
+			}
+			if _, isDefer := in.(*ssa.Defer); isDefer && !x.Replaying {
+				return s
+			}
+			if !i.Common().IsInvoke() && isCancelValue(i.Common().Value) {
+				if _, seen := events[in]; !seen {
+					events[in] = false
+				}
+				if s&bExit == 0 {
+					events[in] = true
+				}
+				return s | bCanc
+			}
+		}
+		return s
+	}
+	f.Cond = func(x *c20Ctx, cond ssa.Value, branch bool, from, to *ssa.BasicBlock, s c20State) c20State {
+		// "or when Cancel is called": having seen the Cancel channel closed, or the members dropped,
+		// entitles the watcher to end the pool
+		if si, fired, _ := c20SelectEdge(cond, branch, to); si != nil {
+			if fired >= 0 && fired < len(si.Cases) && si.Cases[fired].Dir == types.RecvOnly && a.orig(x, si.Cases[fired].ChanV, a.isClosedLoad) == c20Yes {
+				cancelExits++
+				return s | bExit
+			}
+			return s
+		}
+		cmp, ok := decodeCond(cond, branch)
+		if !ok {
+			return s
+		}
+		if cmp.Op == token.EQL && (isNilConst(cmp.Y) || isNilConst(cmp.X)) {
+			v := cmp.X
+			if isNilConst(v) {
+				v = cmp.Y
+			}
+			if a.orig(x, v, a.isMembersLoad) == c20Yes {
+				cancelExits++
+				return s | bExit
+			}
+			return s
+		}
 		idx, ln, op := cmp.X, cmp.Y, cmp.Op
-		if !isLenOfField(ln, poolField) {
-			idx, ln = cmp.Y, cmp.X
+		lenSide := func(v ssa.Value) bool { return a.orig(x, v, a.isLenOfMembers) == c20Yes }
+		if !lenSide(ln) {
+			if !lenSide(idx) {
+				if a.mentionsLen(x, idx, 0) || a.mentionsLen(x, ln, 0) {
+					exitUnknown["a branch in "+x.Fn().Name()+" compares an expression built from len(members) that is not of the form index <op> len(members)"] = true
+				}
+				return s
+			}
+			idx, ln = ln, idx
 			switch op {
 			case token.LSS:
 				op = token.GTR
@@ -243,321 +712,747 @@ func checkC20Loop(c *Ctx, watcher *ssa.Function, wname string, poolField FieldID
 				op = token.LEQ
 			}
 		}
-		if !isLenOfField(ln, poolField) {
-			return
+		if op != token.GEQ {
+			if op != token.LSS {
+				nearMiss["the index is compared with len(members) using "+op.String()+" (the watcher must go on exactly while index < len)"] = true
+			}
+			return s
 		}
-		found = ifi
-		// continue edge: where idx < len holds
-		var contEdge, exitEdge *ssa.BasicBlock
-		switch op {
-		case token.LSS:
-			contEdge, exitEdge = ifi.Block().Succs[0], ifi.Block().Succs[1]
-		case token.GEQ:
-			contEdge, exitEdge = ifi.Block().Succs[1], ifi.Block().Succs[0]
+		if s&bFresh == 0 {
+			nearMiss["index >= len(members) is observed on a length read before the last wait (members added meanwhile are never waited for)"] = true
+			return s
+		}
+		iv, _ := x.Resolve(idx)
+		switch v := iv.(type) {
+		case *ssa.Const:
+			// the index at loop entry
+			if v.Value == nil || v.Int64() != 0 {
+				nearMiss["a constant other than 0 is compared with len(members)"] = true
+				return s
+			}
+		case *ssa.Phi:
+			if !c20ProgressionFromZero(v) {
+				nearMiss["the index compared with len(members) does not start at 0 and advance by exactly 1"] = true
+				return s
+			}
+		case *ssa.BinOp:
+			// the incremented index (the value the loop variable has after i++)
+			okInc := false
+			for _, rr := range refs(v) {
+				if phi, isPhi := rr.(*ssa.Phi); isPhi && c20ProgressionFromZero(phi) {
+					okInc = true
+				}
+			}
+			if !okInc {
+				exitUnknown["the value compared with len(members) in "+x.Fn().Name()+" is computed from the index (not the index itself)"] = true
+				return s
+			}
 		default:
-			why = "loop test compares the index with len(pool) using " + op.String() + " (must continue exactly while index < len)"
-			return
+			exitUnknown["the value compared with len(members) in "+x.Fn().Name()+" is not a loop-carried SSA variable (kept in memory or computed)"] = true
+			return s
 		}
-		_ = contEdge
-		phi, ok := idx.(*ssa.Phi)
-		if !ok {
-			why = "loop index is not a loop-carried variable"
-			return
-		}
-		startsAtZero, stepOne := false, false
-		for _, ed := range phi.Edges {
-			if k, ok := ed.(*ssa.Const); ok && k.Value != nil && k.Int64() == 0 {
-				startsAtZero = true
-				continue
-			}
-			if bo, ok := ed.(*ssa.BinOp); ok && bo.Op == token.ADD && bo.X == phi {
-				if k, ok := bo.Y.(*ssa.Const); ok && k.Int64() == 1 {
-					stepOne = true
-					continue
-				}
-			}
-			why = "loop index is updated by something other than i+1 / starts elsewhere than 0"
-			return
-		}
-		if !startsAtZero || !stepOne {
-			why = "loop index does not start at 0 and advance by 1"
-			return
-		}
-		// len computed inside the loop: its block lies on a cycle
-		lenInstr := ln.(ssa.Instruction)
-		lb := lenInstr.Block()
-		inLoop := false
-		for _, s := range lb.Succs {
-			if reachableFrom(s, nil)[lb] {
-				inLoop = true
-			}
-		}
-		// and the pool load feeding it is in the same iteration (same block or dominated by the loop head)
-		if !inLoop {
-			why = "len(p.pool) feeding the exit test is computed outside the loop (members added later are never waited for)"
-			return
-		}
-		// exits: every return must be dominated by the exit edge
-		bad := false
-		for _, b := range watcher.Blocks {
-			if len(b.Instrs) == 0 {
-				continue
-			}
-			if _, ok := b.Instrs[len(b.Instrs)-1].(*ssa.Return); ok && len(b.Preds) > 0 {
-				if !edgeDominates(ifi.Block(), exitEdge, b) {
-					bad = true
-				}
-			}
-		}
-		if bad {
-			why = "the watcher can return on a path other than index >= len(p.pool) (pool context cancelled while members are live)"
-		}
-	})
-	if found == nil {
-		r.Violation("C20.Y2-reread", construct, p.Pos(watcher.Pos()), "no loop test relating the index to len(p.pool) found in the watcher")
-		return
+		exitEdges++
+		return s | bExit
 	}
-	r.Check(why == "", "C20.Y2-reread", construct, p.Pos(instrPos(found)), "index 0..len(pool) with len re-read each iteration; only exit is index >= len", why)
-}
+	res := f.Run(a.root, c20Set{0: {}})
 
-func isLenOfField(v ssa.Value, f FieldID) bool {
-	c, ok := v.(*ssa.Call)
-	if !ok || builtinName(c) != "len" || len(c.Call.Args) != 1 {
-		return false
+	// calls of the cancel function outside the watcher and outside Cancel end the pool early
+	allowed := map[*ssa.Function]bool{}
+	for fn := range a.W {
+		allowed[fn] = true
 	}
-	id, _, ok := fieldOfValue(c.Call.Args[0])
-	return ok && id == f
-}
-
-// checkC20Cancel: Pool.Context is result #0 of a context.WithCancel call in
-// NewPool and the watcher defers result #1 in a block dominating all its exits.
-func checkC20Cancel(c *Ctx, newPool, watcher *ssa.Function, wname string) {
-	r, p := c.R, c.P
-	var wc *ssa.Call
-	allInstrs(newPool, func(in ssa.Instruction) {
-		if call, ok := in.(*ssa.Call); ok && callIs(call, "context", "", "WithCancel") {
-			wc = call
-		}
-	})
-	construct := wname + " defer cancel"
-	if wc == nil {
-		r.Violation("C20.Y3-waits", construct, p.Pos(newPool.Pos()), "NewPool no longer derives the pool context from context.WithCancel")
-		return
+	for fn := range a.k.reach(a.cancel) {
+		allowed[fn] = true
 	}
-	ctxRes, cancelRes := callResult(wc, 0), callResult(wc, 1)
-	// ctx stored in Pool.Context
-	stored := false
-	for _, rr := range refs(ctxRes) {
-		if st, ok := rr.(*ssa.Store); ok {
-			if fa, ok := st.Addr.(*ssa.FieldAddr); ok && fieldIDOfAddr(fa).Field == "Context" {
-				stored = true
-			}
+	var stray []string
+	for _, fn := range a.k.Funcs {
+		if allowed[fn] {
+			continue
 		}
-	}
-	// cancel cell
-	var cell *ssa.Alloc
-	for _, rr := range refs(cancelRes) {
-		if st, ok := rr.(*ssa.Store); ok {
-			if a, ok := st.Addr.(*ssa.Alloc); ok {
-				cell = a
-			}
-		}
-	}
-	deferred := false
-	allInstrs(watcher, func(in ssa.Instruction) {
-		d, ok := in.(*ssa.Defer)
-		if !ok {
-			return
-		}
-		v := d.Call.Value
-		if u, ok := v.(*ssa.UnOp); ok && u.Op == token.MUL {
-			if fv, ok := u.X.(*ssa.FreeVar); ok && cell != nil && resolveFreeVar(fv) == cell {
-				// must dominate every rundefers
-				dom := true
-				allInstrs(watcher, func(j ssa.Instruction) {
-					if _, ok := j.(*ssa.RunDefers); ok && !instrDominates(d, j) {
-						dom = false
-					}
-				})
-				if dom {
-					deferred = true
-				}
-			}
-		}
-		if fv, ok := v.(*ssa.FreeVar); ok && resolveFreeVar(fv) == cancelRes {
-			deferred = true
-		}
-	})
-	// and cancel is not called anywhere else before the loop ends
-	early := false
-	for _, fn := range []*ssa.Function{newPool, watcher} {
 		allInstrs(fn, func(in ssa.Instruction) {
-			call, ok := in.(*ssa.Call)
-			if !ok {
-				return
-			}
-			v := call.Call.Value
-			if v == cancelRes {
-				early = true
-			}
-			if u, ok := v.(*ssa.UnOp); ok && u.Op == token.MUL {
-				if a, ok := u.X.(*ssa.Alloc); ok && a == cell {
-					early = true
-				}
-				if fv, ok := u.X.(*ssa.FreeVar); ok && cell != nil && resolveFreeVar(fv) == cell {
-					early = true
-				}
+			if ci, ok := in.(ssa.CallInstruction); ok && !ci.Common().IsInvoke() && isCancelValue(ci.Common().Value) {
+				stray = append(stray, FuncName(p, fn)+" at "+p.Pos(instrPos(in)))
 			}
 		})
 	}
-	r.Check(stored && deferred && !early, "C20.Y3-waits", construct, p.Pos(wc.Pos()),
-		"Pool.Context comes from WithCancel and its cancel is deferred by the watcher (runs on every exit, nowhere else)",
-		"the pool context's cancel is not deferred at the top of the watcher, or is invoked directly (pool could end early or never)")
+	escaped := ""
+	for _, esc := range carriers.Escapes {
+		escaped = p.Pos(instrPos(esc))
+	}
+
+	// Y2
+	construct := a.wname + " loop"
+	early := false
+	var earlyPos token.Pos
+	var evs []ssa.Instruction
+	for in := range events {
+		evs = append(evs, in)
+	}
+	sort.Slice(evs, func(i, j int) bool { return evs[i].Pos() < evs[j].Pos() })
+	for _, in := range evs {
+		if events[in] {
+			early = true
+			earlyPos = instrPos(in)
+		}
+	}
+	switch {
+	case len(events) == 0:
+		// decided below (cancel never invoked)
+		if exitEdges > 0 {
+			r.OK("C20.Y2-reread", construct, p.Pos(a.root.Pos()), "exit test index >= len(members) on a re-read length found")
+		} else if len(exitUnknown) > 0 {
+			r.Undecide("C20.Y2-reread: %s", c20SortedKeys(exitUnknown))
+		} else {
+			a.decide(false, f, "C20.Y2-reread", construct, a.root.Pos(), "", "the watcher has no test index >= len(members) on a length re-read after each wait"+c20Why(nearMiss))
+		}
+	case !early:
+		r.OK("C20.Y2-reread", construct, p.Pos(a.root.Pos()), "cancel is invoked only after index >= len(members) was observed on a length re-read since the last wait; index from 0 step 1")
+	case len(exitUnknown) > 0:
+		r.Undecide("C20.Y2-reread: the watcher's exit test has a shape that is not decided: %s", c20SortedKeys(exitUnknown))
+	default:
+		a.decide(false, f, "C20.Y2-reread", construct, earlyPos, "",
+			"the pool context's cancel can be invoked by the watcher on a path that has not, since the last wait, re-read len(members) and found index >= len: the pool can end while a member (e.g. one added during the wait) is still live"+c20Why(nearMiss))
+	}
+
+	// Y3 cancel half
+	construct = a.wname + " cancel"
+	allCanc := res.returns > 0 && res.all.all(func(s c20State) bool { return s&bCanc != 0 })
+	switch {
+	case len(stray) > 0:
+		r.Violation("C20.Y3-waits", construct, p.Pos(wc.Pos()), "the pool context's cancel function is also invoked outside the watcher and outside Cancel (the pool can end while members are live): "+strings.Join(stray, ", "))
+	case allCanc:
+		r.OK("C20.Y3-waits", construct, p.Pos(wc.Pos()), "Pool.Context comes from context.WithCancel and every exit of the watcher has invoked its cancel function")
+	case escaped != "" || len(f.Unfollowed) > 0:
+		r.Undecide("C20.Y3-waits %s: not every exit of the watcher is seen to invoke cancel, but the cancel function is handed to code that was not followed (%s %s)", construct, escaped, c20SortedKeys(f.Unfollowed))
+	case res.returns == 0:
+		a.decide(false, f, "C20.Y3-waits", construct, a.root.Pos(), "", "the watcher goroutine has no reachable exit: it does not end with the pool")
+	default:
+		a.decide(false, f, "C20.Y3-waits", construct, wc.Pos(), "", "the watcher can exit without having invoked the pool context's cancel function (the pool never ends although all members ended)")
+	}
 }
 
-// checkC20Initial: the loop over the initial contexts.
-func checkC20Initial(c *Ctx, newPool *ssa.Function, poolField FieldID) {
-	r, p := c.R, c.P
+func c20Why(m map[string]bool) string {
+	if len(m) == 0 {
+		return ""
+	}
+	return " [" + c20SortedKeys(m) + "]"
+}
+
+// ---------------------------------------------------------------- Add
+
+// c20AppendInfo decodes v = append(base, elems...).
+func c20AppendInfo(v ssa.Value) (base ssa.Value, elems []ssa.Value, decoded bool, ok bool) {
+	c, isCall := v.(*ssa.Call)
+	if !isCall || builtinName(c) != "append" || len(c.Call.Args) != 2 {
+		return nil, nil, false, false
+	}
+	base = c.Call.Args[0]
+	sl, isSlice := c.Call.Args[1].(*ssa.Slice)
+	if !isSlice {
+		return base, nil, false, true
+	}
+	arr, isAlloc := sl.X.(*ssa.Alloc)
+	if !isAlloc {
+		return base, nil, false, true
+	}
+	for _, r := range refs(arr) {
+		if ia, ok := r.(*ssa.IndexAddr); ok {
+			for _, rr := range refs(ia) {
+				if st, ok := rr.(*ssa.Store); ok && st.Addr == ia {
+					elems = append(elems, st.Val)
+				}
+			}
+		}
+	}
+	return base, elems, len(elems) > 0, true
+}
+
+func (a *c20) checkAdd() {
+	r, p := a.r, a.p
+	const (
+		bND = 1 << iota // pool context found not done, in the current lock hold
+		bNC             // Cancel channel found not closed, in the current lock hold
+		bEN             // pool seen ended (context done or Cancel channel closed)
+		bAP             // offered context appended to the existing members
+		bLW             // write lock held
+	)
+	// the offered context: the non-receiver parameter of Add
+	var offered *ssa.Parameter
+	for i, pa := range a.add.Params {
+		if i > 0 && namedKey(pa.Type()) == "context.Context" {
+			offered = pa
+		}
+	}
+	isOfferedDone := func(x *c20Ctx, v ssa.Value) c20Tri {
+		return a.orig(x, v, func(o ssa.Value) bool {
+			recv, ok := c20CtxMethodCall(o, "Done")
+			if !ok {
+				return false
+			}
+			return a.k.allOrigins(recv, func(q ssa.Value) bool { return q == ssa.Value(offered) }) == c20Yes
+		})
+	}
+	stores := map[ssa.Instruction]string{} // store -> "" ok / reason
+	f := &c20PathFlow{K: a.k}
+	f.Instr = func(x *c20Ctx, in ssa.Instruction, s c20State) c20State {
+		if _, isDefer := in.(*ssa.Defer); isDefer && !x.Replaying {
+			return s
+		}
+		if kind, ok := a.lockKind(in); ok {
+			s &^= bND | bNC
+			switch kind {
+			case opLock:
+				s |= bLW
+			case opUnlock:
+				s &^= bLW
+			}
+			return s
+		}
+		st, ok := in.(*ssa.Store)
+		if !ok {
+			return s
+		}
+		fa, ok := st.Addr.(*ssa.FieldAddr)
+		if !ok || fieldIDOfAddr(fa) != a.ro.Members {
+			return s
+		}
+		if _, seen := stores[in]; !seen {
+			stores[in] = ""
+		}
+		switch {
+		case s&bLW == 0:
+			stores[in] = "the store is not made under the write lock"
+		case s&bND == 0 || s&bNC == 0:
+			stores[in] = "the store is not preceded, in the same write-lock hold, by a non-blocking test that found both the pool context not done and the Cancel channel not closed (a Cancel can slip in between, or a member is added to an ended pool)"
+		}
+		sv, _ := x.Resolve(st.Val)
+		src, open := a.k.origins(sv)
+		if open || len(src) != 1 {
+			return s
+		}
+		base, elems, decoded, isApp := c20AppendInfo(src[0])
+		if !isApp {
+			if c, ok := src[0].(*ssa.Call); ok && builtinName(c) == "" {
+				f.Imprecise["the members slice is assigned the result of "+callDesc(c)+", which is not modelled"] = true
+			}
+			return s
+		}
+		if a.orig(x, base, a.isMembersLoad) != c20Yes {
+			return s // replaces the members instead of growing them
+		}
+		if !decoded || offered == nil {
+			return s | bAP
+		}
+		for _, el := range elems {
+			if isOfferedDone(x, el) != c20No {
+				return s | bAP
+			}
+		}
+		return s
+	}
+	f.Cond = func(x *c20Ctx, cond ssa.Value, branch bool, from, to *ssa.BasicBlock, s c20State) c20State {
+		if si, fired, isDef := c20SelectEdge(cond, branch, to); si != nil {
+			kindOf := func(cs SelCase) c20State {
+				if cs.Dir != types.RecvOnly {
+					return 0
+				}
+				d, c := a.orig(x, cs.ChanV, a.isPoolDone), a.orig(x, cs.ChanV, a.isClosedLoad)
+				if d == c20Yes {
+					return bND
+				}
+				if c == c20Yes {
+					return bNC
+				}
+				if d == c20Unknown || c == c20Unknown || a.opaqueChan(x, cs.ChanV) {
+					f.Imprecise["a select in "+x.Fn().Name()+" tests a channel whose provenance could not be traced"] = true
+				}
+				return 0
+			}
+			if fired >= 0 && fired < len(si.Cases) {
+				if kindOf(si.Cases[fired]) != 0 {
+					return s | bEN
+				}
+				return s
+			}
+			if isDef {
+				for _, cs := range si.Cases {
+					s |= kindOf(cs)
+				}
+			}
+			return s
+		}
+		if cmp, ok := decodeCond(cond, branch); ok {
+			if recv, op, ok := c20ErrTest(cmp); ok {
+				rv, _ := x.Resolve(recv)
+				if a.isPoolCtx(rv) {
+					if op == token.NEQ {
+						return s | bEN
+					}
+					return s | bND
+				}
+			}
+		}
+		// a predicate of some other function over the pool's signals (errors.Is(p.Err(), …), …) is not modelled
+		if call, ok := cond.(*ssa.Call); ok && builtinName(call) == "" {
+			for _, arg := range call.Call.Args {
+				if recv, ok := c20CtxMethodCall(arg, "Err"); ok && a.isPoolCtx(recv) {
+					f.Imprecise["a branch in "+x.Fn().Name()+" depends on "+callDesc(call)+" applied to the pool context's Err()"] = true
+				}
+				if a.k.allOrigins(arg, a.isPoolDone) == c20Yes || a.k.allOrigins(arg, a.isClosedLoad) == c20Yes {
+					f.Imprecise["a branch in "+x.Fn().Name()+" depends on "+callDesc(call)+" applied to the pool's signals"] = true
+				}
+			}
+		}
+		return s
+	}
+	res := f.Run(a.add, c20Set{0: {}})
+
+	// obligation 1: stores
+	var bad []string
+	var badPos token.Pos
+	var ins []ssa.Instruction
+	for in := range stores {
+		ins = append(ins, in)
+	}
+	sort.Slice(ins, func(i, j int) bool { return ins[i].Pos() < ins[j].Pos() })
+	for _, in := range ins {
+		if stores[in] != "" {
+			bad = append(bad, stores[in]+" (at "+p.Pos(instrPos(in))+")")
+			badPos = instrPos(in)
+		}
+	}
+	construct := "context.Pool.Add store to members"
+	if !badPos.IsValid() {
+		badPos = a.add.Pos()
+	}
+	switch {
+	case len(stores) == 0 && len(f.Unfollowed) == 0 && len(f.Imprecise) == 0:
+		r.Violation("C20.Y4-add", construct, p.Pos(a.add.Pos()), "Add (with the package functions it calls) never stores to the members slice: an offered context is not tracked")
+	case len(stores) == 0:
+		r.Undecide("C20.Y4-add: no store to the members slice found on the followed paths of Add (%s %s)", c20SortedKeys(f.Unfollowed), c20SortedKeys(f.Imprecise))
+	default:
+		a.decide(len(bad) == 0, f, "C20.Y4-add", construct, badPos, "every store to members happens under the write lock after finding, in the same hold, the pool context not done and the Cancel channel not closed", strings.Join(bad, "; "))
+	}
+	// obligation 2: returns
+	okAll := res.returns > 0 && res.all.all(func(s c20State) bool { return s&(bEN|bAP) != 0 })
+	a.decide(okAll, f, "C20.Y4-add", "context.Pool.Add every live offer is tracked", a.add.Pos(), "every return of Add either saw the pool ended or appended the offered context to the members",
+		"Add can return without having appended the offered context's Done channel to the existing members although neither the pool context was seen done nor the Cancel channel closed: a context offered to a live pool is silently not tracked (or the members are replaced), so the pool can end while that member is still live")
+}
+
+// ---------------------------------------------------------------- Cancel
+
+func (a *c20) checkCancel() {
+	r, p := a.r, a.p
+	const (
+		bNN      = 1 << iota // members != nil observed on a load made in the current lock hold
+		bNIL                 // members is nil (stored nil / observed nil)
+		bCL                  // Cancel channel closed under a members!=nil guard, members not yet cleared in this hold
+		bLW                  // write lock held
+		bONCE                // inside sync.Once.Do
+		loadBase = 12
+	)
+	loadBit := map[ssa.Instruction]c20State{}
+	var loadMask c20State
+	bitOfLoad := func(in ssa.Instruction) c20State {
+		if b, ok := loadBit[in]; ok {
+			return b
+		}
+		n := len(loadBit)
+		if n >= 8 {
+			return 0
+		}
+		b := c20State(1) << uint(loadBase+n)
+		loadBit[in] = b
+		loadMask |= b
+		return b
+	}
+	closes := map[ssa.Instruction]string{}
+	unlockBad := map[ssa.Instruction]bool{}
+	f := &c20PathFlow{K: a.k}
+	f.Enter = func(x *c20Ctx, call ssa.CallInstruction, s c20State) c20State {
+		if c20OnceDoArg(call) != nil && staticCallee(call) != nil && callIs(call, "sync", "Once", "Do") {
+			return s | bONCE
+		}
+		return s
+	}
+	f.Leave = func(x *c20Ctx, call ssa.CallInstruction, s c20State) c20State {
+		if callIs(call, "sync", "Once", "Do") {
+			return s &^ bONCE
+		}
+		return s
+	}
+	f.Instr = func(x *c20Ctx, in ssa.Instruction, s c20State) c20State {
+		if _, isDefer := in.(*ssa.Defer); isDefer && !x.Replaying {
+			return s
+		}
+		if kind, ok := a.lockKind(in); ok {
+			if (kind == opUnlock || kind == opRUnlock) && s&bCL != 0 {
+				unlockBad[in] = true
+			}
+			s &^= bNN | loadMask
+			switch kind {
+			case opLock:
+				s |= bLW
+			case opUnlock:
+				s &^= bLW | bCL
+			}
+			return s
+		}
+		switch i := in.(type) {
+		case *ssa.UnOp:
+			if i.Op == token.MUL && a.isMembersLoad(i) {
+				return s | bitOfLoad(in)
+			}
+		case *ssa.Store:
+			if fa, ok := i.Addr.(*ssa.FieldAddr); ok && fieldIDOfAddr(fa) == a.ro.Members {
+				if isNilConst(i.Val) {
+					return (s | bNIL) &^ bCL
+				}
+				return s &^ bNIL
+			}
+		case ssa.CallInstruction:
+			if builtinName(i) == "close" && len(i.Common().Args) == 1 {
+				switch a.orig(x, i.Common().Args[0], a.isClosedLoad) {
+				case c20Yes:
+					if _, seen := closes[in]; !seen {
+						closes[in] = ""
+					}
+					switch {
+					case s&bLW == 0:
+						closes[in] = "the Cancel channel is closed without holding the write lock (an Add in between sees neither signal and appends to the dropped slice)"
+					case s&(bNN|bONCE) == 0:
+						closes[in] = "the Cancel channel can be closed although members != nil was not observed in this lock hold: a second Cancel closes it again (panic)"
+					}
+					if s&bONCE == 0 && s&bNIL == 0 {
+						s |= bCL
+					}
+				case c20Unknown:
+					f.Imprecise["a close() of a channel whose provenance could not be traced"] = true
+				}
+			}
+		}
+		return s
+	}
+	f.Cond = func(x *c20Ctx, cond ssa.Value, branch bool, from, to *ssa.BasicBlock, s c20State) c20State {
+		if si, fired, isDef := c20SelectEdge(cond, branch, to); si != nil {
+			// "already cancelled?" asked of the Cancel channel itself: closed <=> a Cancel ran its
+			// critical section (which cleared members, by this very rule)
+			isClosedCase := func(cs SelCase) bool {
+				return cs.Dir == types.RecvOnly && a.orig(x, cs.ChanV, a.isClosedLoad) == c20Yes
+			}
+			if fired >= 0 && fired < len(si.Cases) && isClosedCase(si.Cases[fired]) {
+				return s | bNIL
+			}
+			if isDef && s&bLW != 0 {
+				for _, cs := range si.Cases {
+					if isClosedCase(cs) {
+						s |= bNN
+					}
+				}
+			}
+			return s
+		}
+		cmp, ok := decodeCond(cond, branch)
+		if !ok || (cmp.Op != token.EQL && cmp.Op != token.NEQ) {
+			return s
+		}
+		v, y := cmp.X, cmp.Y
+		if isNilConst(v) {
+			v, y = y, v
+		}
+		if !isNilConst(y) {
+			return s
+		}
+		v, _ = x.Resolve(v)
+		src, open := a.k.origins(v)
+		if open || len(src) == 0 {
+			return s
+		}
+		for _, o := range src {
+			if !a.isMembersLoad(o) {
+				return s
+			}
+		}
+		if cmp.Op == token.EQL {
+			return s | bNIL
+		}
+		// != nil: valid only for loads made in the current hold
+		for _, o := range src {
+			in, ok := o.(ssa.Instruction)
+			if !ok || s&loadBit[in] == 0 || loadBit[in] == 0 {
+				return s
+			}
+		}
+		return s | bNN
+	}
+	res := f.Run(a.cancel, c20Set{0: {}})
+
+	// Y5
+	construct := "context.Pool.Cancel close(Cancel channel)"
+	var bad []string
+	var badPos token.Pos
+	var ins []ssa.Instruction
+	for in := range closes {
+		ins = append(ins, in)
+	}
+	sort.Slice(ins, func(i, j int) bool { return ins[i].Pos() < ins[j].Pos() })
+	for _, in := range ins {
+		if closes[in] != "" {
+			bad = append(bad, closes[in]+" (at "+p.Pos(instrPos(in))+")")
+			badPos = instrPos(in)
+		}
+	}
+	for in := range unlockBad {
+		bad = append(bad, "the lock hold in which the Cancel channel is closed can end (at "+p.Pos(instrPos(in))+") without members having been set to nil: the members != nil guard no longer prevents a second close")
+		badPos = instrPos(in)
+	}
+	sort.Strings(bad)
+	if res.returns > 0 && !res.all.all(func(s c20State) bool { return s&bCL == 0 }) {
+		bad = append(bad, "Cancel can return after closing the Cancel channel without having set members to nil")
+	}
+	if !badPos.IsValid() {
+		badPos = a.cancel.Pos()
+	}
+	if len(closes) == 0 {
+		elsewhere := false
+		for _, fn := range a.k.Funcs {
+			for _, cl := range closeSites(fn) {
+				if a.k.allOrigins(cl.Instr.(ssa.CallInstruction).Common().Args[0], a.isClosedLoad) != c20No {
+					elsewhere = true
+				}
+			}
+		}
+		if elsewhere || len(f.Unfollowed) > 0 || len(f.Imprecise) > 0 {
+			r.Undecide("C20.Y5-cancel: no close of the Cancel channel on the followed paths of Cancel, but one exists elsewhere in the package or a call was not followed")
+		} else {
+			r.Violation("C20.Y5-cancel", construct, p.Pos(a.cancel.Pos()), "nothing in the package closes the Cancel channel: Cancel does not release the watcher")
+		}
+	} else {
+		a.decide(len(bad) == 0, f, "C20.Y5-cancel", construct, badPos, "the Cancel channel is closed under the write lock, guarded against a second close, and members is cleared before the hold ends", strings.Join(bad, "; "))
+	}
+	// Y7
+	okNil := res.returns > 0 && res.all.all(func(s c20State) bool { return s&bNIL != 0 })
+	a.decide(okNil, f, "C20.Y7-cancel-clears", "context.Pool.Cancel clears members", a.cancel.Pos(), "every return of Cancel leaves the members slice nil",
+		"Cancel can return without having dropped the members (no nil store and members not seen nil on that path): Size() stays non-zero after Cancel")
+}
+
+// ---------------------------------------------------------------- NewPool
+
+func (a *c20) checkInitial() {
+	r, p := a.r, a.p
 	construct := "context.NewPool initial members"
-	// find the loop header: If comparing an index with len(ctx) parameter
 	var ctxParam *ssa.Parameter
-	for _, pa := range newPool.Params {
-		if _, ok := pa.Type().Underlying().(*types.Slice); ok {
+	for _, pa := range a.newPool.Params {
+		if sl, ok := pa.Type().Underlying().(*types.Slice); ok && namedKey(sl.Elem()) == "context.Context" {
 			ctxParam = pa
 		}
 	}
 	if ctxParam == nil {
-		r.Violation("C20.Y6-initial", construct, p.Pos(newPool.Pos()), "NewPool no longer takes the initial contexts as a variadic/slice parameter")
+		r.Undecide("C20.Y6-initial: NewPool no longer takes the initial contexts as a (variadic) slice of context.Context")
 		return
 	}
-	var header *ssa.BasicBlock
-	allInstrs(newPool, func(in ssa.Instruction) {
-		ifi, ok := in.(*ssa.If)
-		if !ok {
-			return
+	isCtxSlice := func(v ssa.Value) bool {
+		return a.k.allOrigins(v, func(o ssa.Value) bool { return o == ssa.Value(ctxParam) }) == c20Yes
+	}
+	isCtxElem := func(o ssa.Value) bool {
+		u, ok := o.(*ssa.UnOp)
+		if !ok || u.Op != token.MUL {
+			return false
 		}
-		if cmp, ok := decodeCond(ifi.Cond, true); ok {
-			for _, v := range []ssa.Value{cmp.X, cmp.Y} {
-				if call, ok := v.(*ssa.Call); ok && builtinName(call) == "len" && call.Call.Args[0] == ctxParam {
-					header = ifi.Block()
+		ia, ok := u.X.(*ssa.IndexAddr)
+		return ok && isCtxSlice(ia.X)
+	}
+	// the loop: a branch comparing an index with len(initial contexts)
+	var header *ssa.BasicBlock
+	var loopFn *ssa.Function
+	var idxV ssa.Value
+	var fns []*ssa.Function
+	for fn := range a.k.reach(a.newPool) {
+		fns = append(fns, fn)
+	}
+	sort.Slice(fns, func(i, j int) bool { return FuncName(p, fns[i]) < FuncName(p, fns[j]) })
+	nLoops := 0
+	for _, fn := range fns {
+		allInstrs(fn, func(in ssa.Instruction) {
+			ifi, ok := in.(*ssa.If)
+			if !ok {
+				return
+			}
+			cmp, ok := decodeCond(ifi.Cond, true)
+			if !ok {
+				return
+			}
+			for k, v := range []ssa.Value{cmp.X, cmp.Y} {
+				src, open := a.k.origins(v)
+				if open || len(src) == 0 {
+					continue
+				}
+				all := true
+				for _, o := range src {
+					call, ok := o.(*ssa.Call)
+					if !ok || builtinName(call) != "len" || !isCtxSlice(call.Call.Args[0]) {
+						all = false
+					}
+				}
+				if !all {
+					continue
+				}
+				// a loop test: the block lies on a cycle
+				onCycle := false
+				for _, s := range ifi.Block().Succs {
+					if reachableFrom(s, nil)[ifi.Block()] {
+						onCycle = true
+					}
+				}
+				if !onCycle {
+					continue
+				}
+				nLoops++
+				header, loopFn = ifi.Block(), fn
+				idxV = cmp.X
+				if k == 0 {
+					idxV = cmp.Y
+				}
+			}
+		})
+	}
+	if header == nil || nLoops != 1 {
+		r.Undecide("C20.Y6-initial: NewPool (with its package callees) does not contain exactly one loop whose test compares an index with len of the initial contexts (%d found); how the initial members are collected is not decided", nLoops)
+		return
+	}
+	// index progression: 0,1,2,... at the test
+	progression := false
+	switch v := idxV.(type) {
+	case *ssa.Phi:
+		progression = c20ProgressionFromZero(v)
+	case *ssa.BinOp:
+		// range lowering: t = phi(-1, t) + 1
+		if v.Op == token.ADD {
+			if phi, ok := v.X.(*ssa.Phi); ok {
+				if k, ok := v.Y.(*ssa.Const); ok && k.Value != nil && k.Int64() == 1 {
+					progression = true
+					for _, ed := range phi.Edges {
+						if c, ok := ed.(*ssa.Const); ok && c.Value != nil && c.Int64() == -1 {
+							continue
+						}
+						if ed == ssa.Value(v) {
+							continue
+						}
+						progression = false
+					}
 				}
 			}
 		}
-	})
-	if header == nil {
-		r.Violation("C20.Y6-initial", construct, p.Pos(newPool.Pos()), "no loop over the initial contexts (index test against len(ctx)) found in NewPool")
-		return
 	}
-	// loop body = blocks reachable from header that can reach header
 	inLoop := map[*ssa.BasicBlock]bool{}
-	for _, b := range newPool.Blocks {
+	for _, b := range loopFn.Blocks {
 		if reachableFrom(header, nil)[b] && reachableFrom(b, nil)[header] {
 			inLoop[b] = true
 		}
 	}
 	why := ""
-	for b := range inLoop {
+	for _, b := range loopFn.Blocks {
+		if !inLoop[b] {
+			continue
+		}
 		for _, s := range b.Succs {
 			if !inLoop[s] && b != header && !endsInPanic(s) {
-				// leaving the loop from the body (break/return); panics have no successors
 				why = "the loop over the initial contexts can be left at " + p.Pos(instrPos(b.Instrs[len(b.Instrs)-1])) + " before all of them were considered (later members are never waited for)"
 			}
 		}
 	}
-	// per iteration: back edge states
 	const (
-		appended = 1 << iota
-		evidence
+		bAPP = 1 << iota
+		bEV
 	)
-	ff := &FlagFlow{Fn: newPool, Must: false, Entry: 1 << 0,
-		Transfer: func(in ssa.Instruction, st uint64) uint64 {
-			if in.Block() == header && in == header.Instrs[0] {
-				st = 1 << 0 // new iteration
-			}
-			if s, ok := in.(*ssa.Store); ok {
-				if fa, ok := s.Addr.(*ssa.FieldAddr); ok && fieldIDOfAddr(fa) == poolField {
-					if call, ok := s.Val.(*ssa.Call); ok && builtinName(call) == "append" {
-						return mapStates(st, func(x int) int { return x | appended })
-					}
-				}
-			}
-			return st
-		},
-		EdgeTransfer: func(from, to *ssa.BasicBlock, st uint64) uint64 {
-			if si, ks := selectEdgeCases(from, to); si != nil {
-				for _, k := range ks {
-					if k < len(si.Cases) && si.Cases[k].Dir == types.RecvOnly && strings.HasPrefix(si.Cases[k].Chan, "done:") {
-						return mapStates(st, func(x int) int { return x | evidence })
-					}
-				}
-			}
-			if len(from.Instrs) > 0 {
-				if ifi, ok := from.Instrs[len(from.Instrs)-1].(*ssa.If); ok {
-					br := from.Succs[0] == to
-					if cmp, ok := decodeCond(ifi.Cond, br); ok && cmp.Op == token.NEQ && isNilConst(cmp.Y) {
-						if call, ok := cmp.X.(*ssa.Call); ok && calleeObj(call) != nil && calleeObj(call).Name() == "Err" {
-							return mapStates(st, func(x int) int { return x | evidence })
-						}
-					}
-				}
-			}
-			return st
-		}}
-	ff.Run()
-	for _, pred := range header.Preds {
-		if !inLoop[pred] {
-			continue
+	appends := map[*ssa.Call]bool{}
+	badEdge := false
+	f := &c20PathFlow{K: a.k}
+	f.Instr = func(x *c20Ctx, in ssa.Instruction, s c20State) c20State {
+		if in.Block() == header && in == header.Instrs[0] {
+			s = 0
 		}
-		st, ok := ff.Out(pred)
-		if !ok {
-			continue
+		call, ok := in.(*ssa.Call)
+		if !ok || builtinName(call) != "append" || !types.Identical(call.Type(), a.ro.MemberT) {
+			return s
 		}
-		st = ff.EdgeTransfer(pred, header, st)
-		if st&(1<<0) != 0 {
-			why = "an iteration over the initial contexts can end without appending the context and without having observed it done"
+		_, elems, decoded, _ := c20AppendInfo(call)
+		if !decoded {
+			appends[call] = true
+			return s | bAPP
+		}
+		for _, el := range elems {
+			t := a.orig(x, el, func(o ssa.Value) bool {
+				recv, ok := c20CtxMethodCall(o, "Done")
+				return ok && a.k.allOrigins(recv, isCtxElem) == c20Yes
+			})
+			if t != c20No {
+				appends[call] = true
+				return s | bAPP
+			}
+		}
+		return s
+	}
+	f.Cond = func(x *c20Ctx, cond ssa.Value, branch bool, from, to *ssa.BasicBlock, s c20State) c20State {
+		if si, fired, _ := c20SelectEdge(cond, branch, to); si != nil {
+			if fired >= 0 && fired < len(si.Cases) && si.Cases[fired].Dir == types.RecvOnly {
+				t := a.orig(x, si.Cases[fired].ChanV, func(o ssa.Value) bool {
+					recv, ok := c20CtxMethodCall(o, "Done")
+					return ok && a.k.allOrigins(recv, isCtxElem) == c20Yes
+				})
+				if t == c20Yes {
+					return s | bEV
+				}
+			}
+			return s
+		}
+		if cmp, ok := decodeCond(cond, branch); ok {
+			if recv, op, ok := c20ErrTest(cmp); ok && op == token.NEQ {
+				rv, _ := x.Resolve(recv)
+				if a.k.allOrigins(rv, isCtxElem) == c20Yes {
+					return s | bEV
+				}
+			}
+		}
+		return s
+	}
+	f.Edge = func(x *c20Ctx, from, to *ssa.BasicBlock, s c20State) {
+		if to == header && inLoop[from] && s&(bAPP|bEV) == 0 {
+			badEdge = true
 		}
 	}
-	r.Check(why == "", "C20.Y6-initial", construct, p.Pos(instrPos(header.Instrs[len(header.Instrs)-1])), "every initial context is appended or was observed done; the loop ends only at len(ctx)", why)
-}
-
-// checkC20CancelClears: all returns of Cancel have pool == nil.
-func checkC20CancelClears(c *Ctx, poolField FieldID) {
-	r, p := c.R, c.P
-	fn := p.Func("context", "Pool.Cancel")
-	ff := &FlagFlow{Fn: fn, Must: true,
-		Transfer: func(in ssa.Instruction, st uint64) uint64 {
-			if s, ok := in.(*ssa.Store); ok {
-				if fa, ok := s.Addr.(*ssa.FieldAddr); ok && fieldIDOfAddr(fa) == poolField {
-					if isNilConst(s.Val) {
-						return st | 1
-					}
-					return st &^ 1
-				}
+	f.Run(a.newPool, c20Set{0: {}})
+	if len(appends) == 0 && why == "" {
+		r.Undecide("C20.Y6-initial: no append of a context's Done channel to a slice of the members' type found in NewPool or its package callees; how the initial members are collected is not recognised")
+		return
+	}
+	if why == "" && badEdge {
+		why = "an iteration over the initial contexts can end without appending the context's Done channel and without having observed that context done"
+	}
+	// the collected channels reach the members field
+	if why == "" {
+		reaches := false
+		escapes := false
+		for call := range appends {
+			fl := a.k.flowsTo(call)
+			if fl.Fields[a.ro.Members] {
+				reaches = true
 			}
-			return st
-		},
-		EdgeTransfer: func(from, to *ssa.BasicBlock, st uint64) uint64 {
-			if len(from.Instrs) > 0 {
-				if ifi, ok := from.Instrs[len(from.Instrs)-1].(*ssa.If); ok && from.Succs[0] != from.Succs[1] {
-					br := from.Succs[0] == to
-					if cmp, ok := decodeCond(ifi.Cond, br); ok && cmp.Op == token.EQL && isNilConst(cmp.Y) {
-						if id, _, ok := fieldOfValue(cmp.X); ok && id == poolField {
-							return st | 1
-						}
-					}
-				}
+			if len(fl.Escapes) > 0 {
+				escapes = true
 			}
-			return st
-		}}
-	ff.Run()
-	ok, n := true, 0
-	where := ""
-	ff.AtReturns(func(ret *ssa.Return, st uint64) {
-		n++
-		if st&1 == 0 {
-			ok = false
-			where = p.Pos(ret.Pos())
 		}
-	})
-	r.Check(ok && n > 0, "C20.Y7-cancel-clears", "context.Pool.Cancel clears pool", p.Pos(fn.Pos()), "every return of Cancel leaves Pool.pool nil", "Cancel can return (at "+where+") without dropping the members: Size() stays non-zero after Cancel")
+		if !reaches {
+			if len(appends) == 0 || escapes {
+				r.Undecide("C20.Y6-initial: the slice the initial Done channels are appended to could not be traced to the members field of Pool")
+				return
+			}
+			why = "the slice the initial Done channels are appended to never reaches the members field of the Pool"
+		}
+	}
+	if why == "" && !progression {
+		r.Undecide("C20.Y6-initial: the index of the loop over the initial contexts is not recognised as 0,1,2,… (shape not decided)")
+		return
+	}
+	a.decide(why == "", f, "C20.Y6-initial", construct, instrPos(header.Instrs[len(header.Instrs)-1]), "every initial context is appended or was observed done; the loop ends only at len of the initial contexts", why)
 }
